@@ -92,7 +92,9 @@ Inductive node :=
 | WBlock (t : token) (nodes : list node)          (* ast.BlockNode *)
 | WCond (t : token) (e : expr) (block : node)     (* ast.ConditionalBlockNode *)
 | WMulti (t : token) (e : expr) (block : node)    (* case_tag.MultiExpressionBlockNode *)
-| NTablerow (t : token) (loop : expr) (block : node).   (* shopify/tags/tablerow_tag.TablerowNode *)
+| NTablerow (t : token) (loop : expr) (block : node)    (* shopify/tags/tablerow_tag.TablerowNode *)
+| WLoopBlock (t : token) (names : list str) (nodes : list node).   (* for_tag.LoopBlockNode: the per-item
+     block of a for tag, a BlockNode that declares the loop variable and forloop in its block scope *)
 
 Definition n_token (n : node) : token :=
   match n with
@@ -100,12 +102,12 @@ Definition n_token (n : node) : token :=
   | NCapture t _ _ | NIf t _ _ _ _ | NUnless t _ _ _ _ | NCase t _ _ _ | NFor t _ _ _
   | NWith t _ _ | NIncrement t _ | NDecrement t _ | NCycle t _ | NMacro t _ _ _
   | NCall t _ _ _ | NInclude t _ _ _ _ _ | NRender t _ _ _ _ _ | NExtends t _
-  | NBlock t _ _ _ | NLiquid t _ | WBlock t _ | WCond t _ _ | WMulti t _ _ | NTablerow t _ _ => t
+  | NBlock t _ _ _ | NLiquid t _ | WBlock t _ | WCond t _ _ | WMulti t _ _ | NTablerow t _ _ | WLoopBlock t _ _ => t
   end.
 
 (** isinstance(node, (BlockNode, ConditionalBlockNode, MultiExpressionBlockNode)) *)
 Definition is_wrapper (n : node) : bool :=
-  match n with WBlock _ _ | WCond _ _ _ | WMulti _ _ _ => true | _ => false end.
+  match n with WBlock _ _ | WCond _ _ _ | WMulti _ _ _ | WLoopBlock _ _ _ => true | _ => false end.
 
 Definition opt_list {A} (o : option A) : list A := match o with Some a => [a] | None => [] end.
 
@@ -200,7 +202,8 @@ Definition include_s : str := [105;110;99;108;117;100;101]%N.      (* "include" 
 
 Definition n_block_scope (n : node) : list str :=
   match n with
-  | NFor _ (ELoop id _ _ _ _) _ _ => [id; forloop_s]                (* for_tag.py:160 *)
+  | WLoopBlock _ names _ => names                                   (* for_tag.LoopBlockNode.block_scope:
+                                                                        loop variable, forloop - not the else block *)
   | NTablerow _ (ELoop id _ _ _ _) _ => [id; tablerowloop_s]        (* tablerow_tag.py block_scope *)
   | NWith _ args _ => map fst args                                  (* with_tag.py:78 *)
   | NMacro _ _ ps _ => map fst ps                                   (* macro_tag.py:100 *)
@@ -234,7 +237,7 @@ Definition n_kids (n : node) : list node :=
   | NIf _ _ c alts d | NUnless _ _ c alts d => c :: alts ++ opt_list d
   | NCase _ _ whens d => whens ++ opt_list d
   | NFor _ _ b d => b :: opt_list d
-  | WBlock _ ns => ns
+  | WBlock _ ns | WLoopBlock _ _ ns => ns
   | _ => []
   end.
 
@@ -445,11 +448,13 @@ Section Visit.
         do ex <- mapM_app (fun e =>
                     do a <- av f tn e (cur_stack c s1) ;;
                     do b <- ef f tn e ;; Ok (a ++ b)) (n_expressions n) ;;
-        let st2 := fold_left (fun st i => stack_add (fst i) st) (n_template_scope n) (cur_stack c s1) in
-        let '(c2, s2) := cur_set c s1 st2 in
+        (* _update_template_scope: scope.add(ident); locals.add(...) *)
+        let add_locals := fun (c : cur) (s : vstate) =>
+          cur_set c s (fold_left (fun st i => stack_add (fst i) st) (n_template_scope n) (cur_stack c s)) in
         let locs := map (fun i => CLocal (local_var tn i)) (n_template_scope n) in
         match n_partial_scope n with
         | Some (pname, kind, ins) =>
+            let '(c2, s2) := add_locals c s1 in
             if mem_str pname (seen s2) then Ok (c2, s2, tags ++ ex ++ locs)
             else
               let '(pc, s3) :=
@@ -464,12 +469,14 @@ Section Visit.
               let s5 := match pc' with None => pop_root s4 | Some _ => s4 end in
               Ok (c2, s5, tags ++ ex ++ locs ++ cc)
         | None =>
-            let '(c3, s3) := cur_set c2 s2 (cur_stack c2 s2 ++ [n_block_scope n]) in
+            let '(c3, s3) := cur_set c s1 (cur_stack c s1 ++ [n_block_scope n]) in
             do ch <- children incl n ;;
             do r <- fold_visit (fun x c s => visit f x tn c s) ch c3 s3 ;;
             let '(c4, s4, cc) := r in
             let '(c5, s5) := cur_set c4 s4 (removelast (cur_stack c4 s4)) in
-            Ok (c5, s5, tags ++ ex ++ locs ++ cc)
+            (* a tag binds its names when it has rendered its block (capture) *)
+            let '(c6, s6) := add_locals c5 s5 in
+            Ok (c6, s6, tags ++ ex ++ cc ++ locs)
         end
     end.
 
@@ -679,7 +686,8 @@ Definition head_frame : M frame := fun s =>
     output / comment pseudo nodes and the three internal block wrappers. *)
 Definition tag_events (tn : str) (n : node) : list event :=
   match n with
-  | NContent _ | NComment _ | NOutput _ _ | WBlock _ _ | WCond _ _ _ | WMulti _ _ _ => []
+  | NContent _ | NComment _ | NOutput _ _ | WBlock _ _ | WCond _ _ _ | WMulti _ _ _
+  | WLoopBlock _ _ _ => []
   | _ => match n_token n with
          | TTag name sp | TLines name sp => [EvTag name tn sp]
          | TRaw sp => [EvTag raw_s tn sp]
@@ -918,7 +926,8 @@ Section Interp.
         | NFor _ l blk d =>
             ev l >>> mdo k <- pop ;;;
             if N.eqb k 0 then rno d
-            else upd (push_layer (plain (n_block_scope n))) >>>
+            else (* namespace = {"forloop": forloop, name: None} *)
+                 upd (push_layer (plain (match l with ELoop id _ _ _ _ => [forloop_s; id] | _ => [forloop_s] end))) >>>
                  repeatM (N.to_nat k) (rn blk) >>>
                  upd pop_layer
         | NWith _ args blk =>
@@ -1003,6 +1012,7 @@ Section Interp.
             upd (push_layer (plain (n_block_scope n))) >>>
             repeatM (N.to_nat k) (rn blk) >>>
             upd pop_layer
+        | WLoopBlock _ _ ns => forM ns rn
         end
     end.
 
